@@ -202,8 +202,8 @@ func Vals(key uint16, shape, n int, seed uint64) []uint32 {
 			pos += l + 2 + uint32(r.Intn(40))
 		}
 	case 7: // one value in each of n consecutive chunks: many chunks, long key tables
-		if n > 6000 {
-			n = 6000
+		if n > 1500 {
+			n = 1500
 		}
 		l := uint32(r.Intn(65536))
 		for i := 0; i < n; i++ {
